@@ -44,6 +44,11 @@ theorem evalCmp_saNeg (env : Env) (o : Cmp) (a b : Val) :
   | like => rfl
   | notLike => exact (not3_not3_ofTruth _).symm
 
+theorem not3_not3_inSem (x : Val) (vs : List Val) : not3 (not3 (inSem x vs)) = inSem x vs := by
+  cases vs with
+  | nil => rfl
+  | cons v vs => simp only [inSem, List.foldr_cons, or3, not3_not3_ofTruth]
+
 theorem eval_saInvert (env : Env) (ρ : Nat → Val) (e : Expr) :
     eval env ρ (saInvert e) = not3 (eval env ρ e) := by
   cases e with
@@ -53,46 +58,74 @@ theorem eval_saInvert (env : Env) (ρ : Nat → Val) (e : Expr) :
   | btw n x lo hi =>
     simp only [saInvert, eval]
     cases n
-    · rfl
-    · simp only [Bool.not_true, if_true, not3_not3_and3]
-      rfl
-  | null => rfl
-  | int n => rfl
-  | col i => rfl
-  | ar o l r => rfl
-  | and l r => rfl
-  | or l r => rfl
-  | not e => rfl
-  | neg e => rfl
+    · simp
+    · simp [not3_not3_and3]
+  | inl n x items =>
+    simp only [saInvert, eval]
+    cases n
+    · simp
+    · simp [not3_not3_inSem]
+  | null => simp only [saInvert, eval]
+  | int n => simp only [saInvert, eval]
+  | col i => simp only [saInvert, eval]
+  | ar o l r => simp only [saInvert, eval]
+  | and l r => simp only [saInvert, eval]
+  | or l r => simp only [saInvert, eval]
+  | not e => simp only [saInvert, eval]
+  | neg e => simp only [saInvert, eval]
+  | ite c r e => simp only [saInvert, eval]
+  | cast e => simp only [saInvert, eval]
+  | tnil => simp only [saInvert, eval]
+  | tcons e r => simp only [saInvert, eval]
 
-/-- **NOT rewrite**: valid in three-valued logic for all values -/
-theorem eval_saNormE (env : Env) (ρ : Nat → Val) (e : Expr) (h : okE e = true) :
-    eval env ρ (saNormE e) = eval env ρ e := by
+/-- **NOT rewrite** (and CASE / CAST / IN lists): valid in three-valued logic for all values -/
+theorem eval_saNormE_both (env : Env) (ρ : Nat → Val) (e : Expr) (h : okE e = true) :
+    eval env ρ (saNormE e) = eval env ρ e ∧ evalItems env ρ (saNormE e) = evalItems env ρ e := by
   induction e with
-  | null => rfl
-  | int n => rfl
-  | col i => rfl
+  | null => exact ⟨rfl, rfl⟩
+  | int n => exact ⟨rfl, rfl⟩
+  | col i => exact ⟨rfl, rfl⟩
+  | tnil => exact ⟨rfl, rfl⟩
   | cmp o l r ihl ihr =>
     simp only [okE, Bool.and_eq_true] at h
-    simp only [saNormE, eval, ihl h.1, ihr h.2]
+    simp only [saNormE, eval, evalItems, (ihl h.1).1, (ihr h.2).1, and_self]
   | ar o l r ihl ihr =>
     simp only [okE, Bool.and_eq_true] at h
-    simp only [saNormE, eval, ihl h.1, ihr h.2]
+    simp only [saNormE, eval, evalItems, (ihl h.1).1, (ihr h.2).1, and_self]
   | and l r ihl ihr =>
     simp only [okE, Bool.and_eq_true] at h
-    simp only [saNormE, eval, ihl h.1, ihr h.2]
+    simp only [saNormE, eval, evalItems, (ihl h.1.1.1).1, (ihr h.1.1.2).1, and_self]
   | or l r ihl ihr =>
     simp only [okE, Bool.and_eq_true] at h
-    simp only [saNormE, eval, ihl h.1, ihr h.2]
+    simp only [saNormE, eval, evalItems, (ihl h.1.1.1).1, (ihr h.1.1.2).1, and_self]
   | not e ih =>
     simp only [okE, Bool.and_eq_true, Bool.not_eq_true'] at h
-    simp only [saNormE, eval, eval_saInvert env ρ _, ih h.1]
+    refine ⟨?_, ?_⟩
+    · simp only [saNormE, eval, eval_saInvert env ρ _, (ih h.1).1]
+    · simp only [saNormE, evalItems]
+      cases hs : saNormE e <;> simp only [saInvert, evalItems]
   | neg e ih =>
     simp only [okE] at h
-    simp only [saNormE, eval, ih h]
+    simp only [saNormE, eval, evalItems, (ih h).1, and_self]
   | btw n x lo hi ihx ihl ihh =>
     simp only [okE, Bool.and_eq_true] at h
-    simp only [saNormE, eval, ihx h.1.1, ihl h.1.2, ihh h.2]
+    simp only [saNormE, eval, evalItems, (ihx h.1.1).1, (ihl h.1.2).1, (ihh h.2).1, and_self]
+  | ite c r e ihc ihr ihe =>
+    simp only [okE, Bool.and_eq_true] at h
+    simp only [saNormE, eval, evalItems, (ihc h.1.1).1, (ihr h.1.2).1, (ihe h.2).1, and_self]
+  | cast e ih =>
+    simp only [okE] at h
+    simp only [saNormE, eval, evalItems, (ih h).1, and_self]
+  | inl n x items ihx ihi =>
+    simp only [okE, Bool.and_eq_true] at h
+    simp only [saNormE, eval, evalItems, (ihx h.1).1, (ihi h.2).2, and_self]
+  | tcons e rest ihe ihr =>
+    simp only [okE, Bool.and_eq_true] at h
+    simp only [saNormE, eval, evalItems, (ihe h.1).1, (ihr h.2).2, and_self]
+
+theorem eval_saNormE (env : Env) (ρ : Nat → Val) (e : Expr) (h : okE e = true) :
+    eval env ρ (saNormE e) = eval env ρ e :=
+  (eval_saNormE_both env ρ e h).1
 
 theorem holds_saNormE (env : Env) (c : Expr) (h : okE c = true) (r : Row) :
     holds env (saNormE c) r = holds env c r := by
@@ -243,11 +276,70 @@ theorem evalSelect_saSelect (env : Env) (db : Db) (s : Select) (h : okSelect s =
   simp only [evalSelect, saSelect, evalFrom_saFrom env db _ hf hr, rowsLe_saKey env _ ho, hproj,
     hwhere]
 
+theorem evalT_saT (env : Env) (g : Table) (t : TExpr) (h : okT t = true) :
+    evalT env g (saT t) = evalT env g t := by
+  cases t with
+  | plain e =>
+    simp only [okT] at h
+    cases g with
+    | nil => rfl
+    | cons r rs => simp only [saT, evalT, eval_saNormE env _ e h]
+  | agg f e =>
+    simp only [okT] at h
+    simp only [saT, evalT, eval_saNormE env _ e h]
+  | countStar => rfl
+
+theorem groupKey_saNormE (env : Env) (ks : List Expr) (h : ks.all okE = true) (r : Row) :
+    groupKey env (ks.map saNormE) r = groupKey env ks r := by
+  induction ks with
+  | nil => rfl
+  | cons k ks ih =>
+    simp only [List.all_cons, Bool.and_eq_true] at h
+    simp only [groupKey, List.map_cons, List.cons.injEq] at ih ⊢
+    exact ⟨eval_saNormE env _ k h.1, ih h.2⟩
+
+theorem groupsOf_saNormE (env : Env) (ks : List Expr) (h : ks.all okE = true) (rows : Table) :
+    groupsOf env (ks.map saNormE) rows = groupsOf env ks rows := by
+  have hk : groupKey env (ks.map saNormE) = groupKey env ks := funext (groupKey_saNormE env ks h)
+  have he : (ks.map saNormE).isEmpty = ks.isEmpty := by cases ks <;> rfl
+  simp only [groupsOf, hk, he]
+
+theorem evalGSelect_saGSelect (env : Env) (db : Db) (g : GSelect) (h : okGSelect g = true)
+    (hr : raisesFrom g.from_ = false) : evalGSelect env db (saGSelect g) = evalGSelect env db g := by
+  simp only [okGSelect, Bool.and_eq_true] at h
+  obtain ⟨⟨⟨⟨hf, ht⟩, hw⟩, hg⟩, hh⟩ := h
+  have hwhere : ∀ rows, whereRows env (Option.map saNormE g.where_) rows = whereRows env g.where_ rows := by
+    intro rows
+    cases hs : g.where_ with
+    | none => rfl
+    | some c =>
+      rw [hs] at hw
+      have : holds env (saNormE c) = holds env c := funext (holds_saNormE env c hw)
+      simp only [Option.map_some, whereRows, this]
+  have htar : ∀ grp : Table, (g.targets.map saT).map (evalT env grp) = g.targets.map (evalT env grp) := by
+    intro grp
+    rw [List.map_map]
+    apply List.map_congr_left
+    intro t ht'
+    exact evalT_saT env grp t (List.all_eq_true.1 ht t ht')
+  have hhav : ∀ gs : List Table,
+      havingGroups env (Option.map (fun h => (saT h.1, h.2.1, h.2.2)) g.having) gs =
+        havingGroups env g.having gs := by
+    intro gs
+    cases hs : g.having with
+    | none => rfl
+    | some hv =>
+      rw [hs] at hh
+      simp only [Option.map_some, havingGroups, havingOk, evalT_saT env _ hv.1 hh]
+  simp only [evalGSelect, saGSelect, evalFrom_saFrom env db _ hf hr, hwhere,
+    groupsOf_saNormE env _ hg, hhav, htar]
+
 /-- **T6.1** -/
 theorem evalQuery_saNorm (env : Env) (db : Db) (q : Query) (h : okQ q = true)
     (hr : raisesQ q = false) : evalQuery env db (saNorm q) = evalQuery env db q := by
   induction q with
   | select s => exact evalSelect_saSelect env db s h hr
+  | gselect g => exact evalGSelect_saGSelect env db g h hr
   | setop op u l r ihl ihr =>
     simp only [okQ, Bool.and_eq_true] at h
     simp only [raisesQ, Bool.or_eq_false_iff] at hr
